@@ -40,6 +40,11 @@ MEASURES = {
     "dx1": lambda m: ufl.dx(1, domain=m), "dx2": lambda m: ufl.dx(2, domain=m), "dx": lambda m: ufl.dx(domain=m),
     "ds1": lambda m: ufl.ds(1, domain=m), "dS": lambda m: ufl.dS(domain=m), "dS4": lambda m: ufl.dS(4, domain=m),
     "dP": lambda m: ufl.dP(domain=m),
+    # several quadrature rules inside ONE integral group (same type and id): the kernel's enabled flags are the union over its rules
+    "dxq2": lambda m: ufl.dx(domain=m, metadata={"quadrature_degree": 2}), "dxq4": lambda m: ufl.dx(domain=m, metadata={"quadrature_degree": 4}),
+    "dxq1": lambda m: ufl.dx(domain=m, metadata={"quadrature_degree": 1}),
+    "dS4q1": lambda m: ufl.dS(4, domain=m, metadata={"quadrature_degree": 1}), "dS4q3": lambda m: ufl.dS(4, domain=m, metadata={"quadrature_degree": 3}),
+    "ds1q2": lambda m: ufl.ds(1, domain=m, metadata={"quadrature_degree": 2}), "ds1q5": lambda m: ufl.ds(1, domain=m, metadata={"quadrature_degree": 5}),
 }
 
 
@@ -128,9 +133,9 @@ def enumerate_recipes(thorough):
             for p in subsets4:
                 out.append(dict(cell=cell, measures=[m], patterns=[p], arity=1))
         # two integrals: all pairs of patterns
-        combos = [("dx1", "dx2"), ("dx", "dS"), ("ds1", "dS4")] + ([("dx1", "dx"), ("dS", "dS4"), ("dx", "ds1")] if thorough else [])
+        combos = [("dx1", "dx2"), ("dx", "dS"), ("ds1", "dS4"), ("dxq2", "dxq4"), ("dS4q3", "dS4q1")] + ([("dx1", "dx"), ("dS", "dS4"), ("dx", "ds1"), ("dxq4", "dxq1"), ("ds1q2", "ds1q5")] if thorough else [])
         if cell != "triangle" and not thorough:
-            combos = combos[:1]
+            combos = [combos[0], combos[3]]
         for ms in combos:
             for p, q in itertools.product(subsets, repeat=2):
                 out.append(dict(cell=cell, measures=list(ms), patterns=[p, q], arity=1))
@@ -145,6 +150,10 @@ def enumerate_recipes(thorough):
         if cell in ("triangle", "interval"):
             for p in ([0], [1], [0, 1], [3], [1, 3]):
                 out.append(dict(cell=cell, measures=["dx", "dP"], patterns=[[2], p], arity=1))
+    # three rules in one group (each coefficient of the triple used by exactly one / two of them) + a rule shared with another group
+    for p, q, r in itertools.product([[0], [1], [2], [0, 1], [1, 2]], repeat=3) if thorough else [([0], [1], [2]), ([2], [0], [1]), ([1], [2], [0]), ([0, 1], [2], [1]), ([2], [1, 2], [0])]:
+        out.append(dict(cell="triangle", measures=["dxq1", "dxq2", "dxq4"], patterns=[p, q, r], arity=1))
+        out.append(dict(cell="triangle", measures=["dxq2", "ds1q2", "dxq4"], patterns=[p, q, r], arity=1))
     if thorough:
         # three integrals: all triples of patterns on the triangle
         for p, q, r in itertools.product(subsets, repeat=3):
@@ -197,7 +206,7 @@ def main():
                evaluations=counts["kernel_calls"], distinct_nontrivial=counts["nontrivial"], counts=counts, rejected=rejected[:30],
                samples=samples, exhaustive=True,
                rule=("all assignments of non-empty coefficient-subset patterns (3 coefficients: 7 patterns; single integrals: 15 patterns over 4) to 1-2 (quick) / 1-3 (thorough) "
-                     "integrals of different type/id, constants-usage pairs, derivative/cancellation forms; every disabled coefficient NaN-poisoned per kernel; every local facet "
+                     "integrals of different type/id and to 2-3 integrals with different quadrature rules inside one (type, id) group, constants-usage pairs, derivative/cancellation forms; every disabled coefficient NaN-poisoned per kernel; every local facet "
                      "and code pair as in C02 quick mode; non-trivial = reference tensor not identically zero"))
     chk.finish(cov, assumptions=["NaN poisoning detects every read that can reach A (a dead read of a disabled coefficient is not observable)",
                                  "reference model R keyed by the original UFL coefficient/constant objects"])
